@@ -28,7 +28,7 @@ def bounds(tier):
     q = 0 if tier == "quick" else 1
     return {"n": "every n in 100..300 (rhomax=0.9, GPO over T_HOO) and every 7th n for the other rhomax / wrappers" if q == 0 else "every n in 100..1000 (rhomax=0.9), every 7th n in 100..600 for the others",
             "rhomax": [0.3, 0.5, 0.7, 0.8, 0.9, 0.95], "numax": [1.0, 0.5], "wrappers": ["GPO(T_HOO)", "GPO(HCT)", "GPO(VHCT)", "PCT", "VPCT"],
-            "free-reward runs": "n in {100, 101, 120}, rhomax in {0.5, 0.7, 0.8} (N <= 5)", "outside": "other budgets; rhomax so close to 1 that floor(n/2N) = 0"}
+            "construction-only sweep": "N and floor(n/2N) for every n in 100..3000, every 7th up to 20000 (thorough: every 101st up to 200000), rhomax in {0.3,...,0.99}", "free-reward runs": "n in {100, 101, 120}, rhomax in {0.5, 0.7, 0.8} (N <= 5)", "outside": "other budgets; rhomax so close to 1 that floor(n/2N) = 0"}
 
 
 def configs(tier, seed):
@@ -55,11 +55,39 @@ def configs(tier, seed):
                 if algo == "GPO":
                     pr["base"] = "T_HOO"
                 out.append({"name": "free-%s-n%d-rhomax%s" % (algo, n, rm), "algo": algo, "mode": "free", "part": "B", "d": 1, "n": n, "params": pr, "cost": 10})
+    # construction only, wide range of budgets: N and floor(n/2N) as published (no rounds are played: the numbers that shape the
+    # whole schedule are fixed by the constructor)
+    for rm in (0.3, 0.5, 0.7, 0.8, 0.9, 0.95, 0.99):
+        out.append({"name": "nsweep-GPO-rhomax%s-n100..%d" % (rm, 20000 if q == 0 else 200000), "algo": "GPO", "mode": "nsweep", "part": "B", "d": 1, "n": 100, "top": 20000 if q == 0 else 200000,
+                    "params": {"rhomax": rm, "rounds": 100, "base": "T_HOO"}, "cost": 5})
     out.append({"name": "twin-GPO", "algo": "GPO", "mode": "free", "part": "B", "d": 1, "n": 100, "params": {"rhomax": 0.5, "rounds": 100, "base": "T_HOO"}, "twin": True, "expect_fail": "twin"})
     return out
 
 
+def run_nsweep(ctx, cfg):
+    from harness.runlevel import algo_class
+    from harness.common import partition_class
+    cls = algo_class("GPO")
+    rm = cfg["params"]["rhomax"]
+    Stub = make_stub("T_HOO", [])
+    bad = []
+    top = cfg["top"]
+    n = 100
+    while n <= top:
+        a = cls(rounds=n, rhomax=rm, domain=[[0.0, 1.0]], partition=partition_class("B"), algo=Stub)
+        Ns = schedule(n, rm)
+        if not any(a.N == x for x in Ns):
+            bad.append((n, "N", a.N, Ns))
+        elif a.half_phase_length != n // (2 * int(a.N)):
+            bad.append((n, "floor(n/2N)", a.half_phase_length, n // (2 * int(a.N))))
+        n += 1 if n < 3000 else (7 if n < 20000 else 101)
+    ctx.check("sched:N", not bad, "N / floor(n/2N) differ from the published values for budgets %s (n, which, got, expected)" % (bad[:5],))
+    ctx.count("sym:nsweep")
+
+
 def run(ctx, cfg):
+    if cfg.get("mode") == "nsweep":
+        return run_nsweep(ctx, cfg)
     name = cfg["algo"]
     p = params_of(cfg)
     n, rhomax, numax = p["rounds"], p["rhomax"], p["numax"]
